@@ -26,6 +26,7 @@ import CC.Groestl.LemmasC1024
 import CC.Groestl.Vec256
 import CC.Groestl.Vec512
 import CC.Groestl.Src
+import CC.Groestl.SrcDataflow
 namespace CC.Thm.C07
 open CC CC.Buffer CC.Groestl CC.Groestl.Model
 
@@ -279,5 +280,96 @@ theorem source_glue_match :
    CC.Src.src_groestl_finalize_dirty_256, CC.Src.src_groestl_finalize_dirty_512,
    fun p h out => ⟨CC.Src.src_groestl_finalize_into_dirty_224 p h out, CC.Src.src_groestl_finalize_into_dirty_256 p h out⟩,
    fun p h out => ⟨CC.Src.src_groestl_finalize_into_dirty_384 p h out, CC.Src.src_groestl_finalize_into_dirty_512 p h out⟩⟩
+
+/-- **Source tie, round 6 (the intrinsic dataflow).**  `tools/inventory_hashc.py` regenerates, on every run, Lean
+    definitions from the Rust of hashes/groestl/src/compressor.rs — `mul2`, `submix` (the `aesenclast` step and the
+    MixBytes xor network through `X8::rotl*` / `BitXor` / `map`), `transpose_a`, `transpose_b`, `transpose_b_inv`,
+    `transpose_o_b`, `transpose_o_b_inv`, `round` (round-constant words, the eight `pshufb` masks), `rounds_p_q`,
+    `tf512_impl`, `of512_impl`, `init512_impl`, `transpose`, `transpose_inv`, `rounds_p`, `rounds_q` (the constant
+    tables built by the first loop, the fourteen unrolled rounds, the shuffled mask order), `init1024_impl`,
+    `tf1024_impl`, `of1024_impl` — and of `Compressor512` / `Compressor1024` in lib.rs (`transmute!` and the
+    `CvBytes1024` union between `[u64; n]` and the vectors, little endian): every shuffle immediate, mask, xor, operand
+    order, `aesenclast` key operand, round-constant index and load offset.  The model's definitions equal them.
+    `groestl_wrappers` pins that the functions of the modules `aes` / `ssse3` / `sse2` are bare calls of the `*_impl`
+    functions.  Individual facts: `CC.Src.src_groestl_df_*` (lean/CC/Groestl/SrcDataflow.lean). -/
+theorem source_dataflow_match :
+    (CC.Gen.HashCSrc.groestl_hashc_errors = []) ∧
+    (mul2 = CC.Gen.HashCSrc.groestl_mul2) ∧
+    (submix = fun a => CC.Src.g8Of (CC.Gen.HashCSrc.groestl_submix a.r0 a.r1 a.r2 a.r3 a.r4 a.r5 a.r6 a.r7)) ∧
+    (transpose_a = fun a => CC.Src.g4Of (CC.Gen.HashCSrc.groestl_transpose_a a.r0 a.r1 a.r2 a.r3)) ∧
+    (transpose_b = fun a => CC.Src.g8Of (CC.Gen.HashCSrc.groestl_transpose_b a.r0 a.r1 a.r2 a.r3 a.r4 a.r5 a.r6 a.r7)) ∧
+    (transpose_b_inv = fun a => CC.Src.g8Of (CC.Gen.HashCSrc.groestl_transpose_b_inv a.r0 a.r1 a.r2 a.r3 a.r4 a.r5 a.r6 a.r7)) ∧
+    (transpose_o_b = fun a => CC.Src.g8Of (CC.Gen.HashCSrc.groestl_transpose_o_b a.r0 a.r1 a.r2 a.r3)) ∧
+    (transpose_o_b_inv = fun a => CC.Src.g4Of (CC.Gen.HashCSrc.groestl_transpose_o_b_inv a.r0 a.r1 a.r2 a.r3 a.r4 a.r5 a.r6 a.r7)) ∧
+    (round = fun i a => CC.Src.g8Of (CC.Gen.HashCSrc.groestl_round i a.r0 a.r1 a.r2 a.r3 a.r4 a.r5 a.r6 a.r7)) ∧
+    (rounds_p_q = fun a => CC.Src.g8Of (CC.Gen.HashCSrc.groestl_rounds_p_q a.r0 a.r1 a.r2 a.r3 a.r4 a.r5 a.r6 a.r7)) ∧
+    (tf512_impl = fun a data => CC.Src.g4Of (CC.Gen.HashCSrc.groestl_tf512_impl a.r0 a.r1 a.r2 a.r3 data)) ∧
+    (of512_impl = fun a => CC.Src.g4Of (CC.Gen.HashCSrc.groestl_of512_impl a.r0 a.r1 a.r2 a.r3)) ∧
+    (init512_impl = fun a => CC.Src.g4Of (CC.Gen.HashCSrc.groestl_init512_impl a.r0 a.r1 a.r2 a.r3)) ∧
+    (transpose = fun a => CC.Src.g8Of (CC.Gen.HashCSrc.groestl_transpose a.r0 a.r1 a.r2 a.r3 a.r4 a.r5 a.r6 a.r7)) ∧
+    (transpose_inv = fun a => CC.Src.g8Of (CC.Gen.HashCSrc.groestl_transpose_inv a.r0 a.r1 a.r2 a.r3 a.r4 a.r5 a.r6 a.r7)) ∧
+    (rounds_p = fun a => CC.Src.g8Of (CC.Gen.HashCSrc.groestl_rounds_p a.r0 a.r1 a.r2 a.r3 a.r4 a.r5 a.r6 a.r7)) ∧
+    (rounds_q = fun a => CC.Src.g8Of (CC.Gen.HashCSrc.groestl_rounds_q a.r0 a.r1 a.r2 a.r3 a.r4 a.r5 a.r6 a.r7)) ∧
+    (init1024_impl = fun a => CC.Src.g8Of (CC.Gen.HashCSrc.groestl_init1024_impl a.r0 a.r1 a.r2 a.r3 a.r4 a.r5 a.r6 a.r7)) ∧
+    (tf1024_impl = fun a data => CC.Src.g8Of (CC.Gen.HashCSrc.groestl_tf1024_impl a.r0 a.r1 a.r2 a.r3 a.r4 a.r5 a.r6 a.r7 data)) ∧
+    (of1024_impl = fun a => CC.Src.g8Of (CC.Gen.HashCSrc.groestl_of1024_impl a.r0 a.r1 a.r2 a.r3 a.r4 a.r5 a.r6 a.r7)) ∧
+    (comp512.new = fun block => CC.Src.g4Of (CC.Gen.HashCSrc.groestl_compressor512_new block)) ∧
+    (comp512.input = fun a data => CC.Src.g4Of (CC.Gen.HashCSrc.groestl_compressor512_input a.r0 a.r1 a.r2 a.r3 data)) ∧
+    (comp512.finalizeDirty = fun a => CC.Src.fin512Of (CC.Gen.HashCSrc.groestl_compressor512_finalize_dirty a.r0 a.r1 a.r2 a.r3)) ∧
+    (comp1024.new = fun block => CC.Src.g8Of (CC.Gen.HashCSrc.groestl_compressor1024_new block)) ∧
+    (comp1024.input = fun a data =>
+      CC.Src.g8Of (CC.Gen.HashCSrc.groestl_compressor1024_input a.r0 a.r1 a.r2 a.r3 a.r4 a.r5 a.r6 a.r7 data)) ∧
+    (comp1024.finalizeDirty = fun a =>
+      CC.Src.fin1024Of (CC.Gen.HashCSrc.groestl_compressor1024_finalize_dirty a.r0 a.r1 a.r2 a.r3 a.r4 a.r5 a.r6 a.r7)) ∧
+    (CC.Gen.HashCSrc.groestl_wrappers = [
+  ("aes", "tf512", "tf512_impl ( cv , data )"),
+  ("aes", "of512", "of512_impl ( cv )"),
+  ("aes", "init512", "init512_impl ( cv )"),
+  ("aes", "tf1024", "tf1024_impl ( cv , data )"),
+  ("aes", "of1024", "of1024_impl ( cv )"),
+  ("aes", "init1024", "init1024_impl ( cv )"),
+  ("ssse3", "tf512", "tf512_impl ( cv , data )"),
+  ("ssse3", "of512", "of512_impl ( cv )"),
+  ("ssse3", "tf1024", "tf1024_impl ( cv , data )"),
+  ("ssse3", "of1024", "of1024_impl ( cv )"),
+  ("sse2", "tf512", "tf512_impl ( cv , data )"),
+  ("sse2", "of512", "of512_impl ( cv )"),
+  ("sse2", "init512", "init512_impl ( cv )"),
+  ("sse2", "tf1024", "tf1024_impl ( cv , data )"),
+  ("sse2", "of1024", "of1024_impl ( cv )"),
+  ("sse2", "init1024", "init1024_impl ( cv )"),
+  ("autodetect", "tf512", "dispatch ! ( tf512 , Tf < X4 > ) ; unsafe { IMPL ( cv , data . as_ptr ( ) ) }"),
+  ("autodetect", "of512", "dispatch ! ( of512 , Of < X4 > ) ; unsafe { IMPL ( cv ) }"),
+  ("autodetect", "init512", "dispatch ! ( init512 , Init < X4 > ) ; unsafe { IMPL ( cv ) }"),
+  ("autodetect", "tf1024", "dispatch ! ( tf1024 , Tf < X8 > ) ; unsafe { IMPL ( cv , data . as_ptr ( ) ) }"),
+  ("autodetect", "of1024", "dispatch ! ( of1024 , Of < X8 > ) ; unsafe { IMPL ( cv ) }"),
+  ("autodetect", "init1024", "dispatch ! ( init1024 , Init < X8 > ) ; unsafe { IMPL ( cv ) }")]) :=
+  ⟨CC.Src.src_groestl_df_hashc_clean,
+   CC.Src.src_groestl_df_mul2,
+   CC.Src.src_groestl_df_submix,
+   CC.Src.src_groestl_df_transpose_a,
+   CC.Src.src_groestl_df_transpose_b,
+   CC.Src.src_groestl_df_transpose_b_inv,
+   CC.Src.src_groestl_df_transpose_o_b,
+   CC.Src.src_groestl_df_transpose_o_b_inv,
+   CC.Src.src_groestl_df_round,
+   CC.Src.src_groestl_df_rounds_p_q,
+   CC.Src.src_groestl_df_tf512_impl,
+   CC.Src.src_groestl_df_of512_impl,
+   CC.Src.src_groestl_df_init512_impl,
+   CC.Src.src_groestl_df_transpose,
+   CC.Src.src_groestl_df_transpose_inv,
+   CC.Src.src_groestl_df_rounds_p,
+   CC.Src.src_groestl_df_rounds_q,
+   CC.Src.src_groestl_df_init1024_impl,
+   CC.Src.src_groestl_df_tf1024_impl,
+   CC.Src.src_groestl_df_of1024_impl,
+   CC.Src.src_groestl_df_compressor512_new,
+   CC.Src.src_groestl_df_compressor512_input,
+   CC.Src.src_groestl_df_compressor512_finalize_dirty,
+   CC.Src.src_groestl_df_compressor1024_new,
+   CC.Src.src_groestl_df_compressor1024_input,
+   CC.Src.src_groestl_df_compressor1024_finalize_dirty,
+   CC.Src.src_groestl_df_wrappers⟩
 
 end CC.Thm.C07
